@@ -59,16 +59,21 @@ where
         ok(Self::e(&Cv::<K>::ff(g).to_initial()))
     }
     pub fn op_compose(a: &RFF, b: &RFF) -> Sx {
-        Self::eo(Cv::<K>::ff(a).compose(&Cv::<K>::ff(b)))
+        // `>>` is sugar for `compose`: used when the left table has odd length
+        let (x, y) = (Cv::<K>::ff(a), Cv::<K>::ff(b));
+        Self::eo(if a.table.len() % 2 == 1 { &x >> &y } else { x.compose(&y) })
     }
     pub fn op_compose_semifinite(a: &RFF, lb: &[usize]) -> Sx {
-        opt(compose_semifinite(&Cv::<K>::ff(a), &Cv::<K>::sf(lb)).map(|r| l(&Cv::<K>::rsf(&r))))
+        let (x, y) = (Cv::<K>::ff(a), Cv::<K>::sf(lb));
+        opt((if a.table.len() % 2 == 1 { &x >> &y } else { compose_semifinite(&x, &y) }).map(|r| l(&Cv::<K>::rsf(&r))))
     }
     pub fn op_coproduct(a: &RFF, b: &RFF) -> Sx {
-        Self::eo(Cv::<K>::ff(a).coproduct(&Cv::<K>::ff(b)))
+        let (x, y) = (Cv::<K>::ff(a), Cv::<K>::ff(b));
+        Self::eo(if a.table.len() % 2 == 1 { &x + &y } else { x.coproduct(&y) })
     }
     pub fn op_tensor(a: &RFF, b: &RFF) -> Sx {
-        ok(Self::e(&Cv::<K>::ff(a).tensor(&Cv::<K>::ff(b))))
+        let (x, y) = (Cv::<K>::ff(a), Cv::<K>::ff(b));
+        ok(Self::e(&(if a.table.len() % 2 == 1 { &x | &y } else { x.tensor(&y) })))
     }
     pub fn op_inj0(a: usize, b: usize) -> Sx {
         ok(Self::e(&FiniteFunction::<K>::inj0(a, b)))
